@@ -348,7 +348,9 @@ func BuildDirectory(t require.TestingT, linkSys *linking.LinkSystem, children []
 
 func packDirectory(lsys linking.LinkSystem, children []DirEntry, bitWidth int) (DirEntry, error) {
 	// create stable sorted children, which should match the encoded form
-	// in dag-pb
+	// in dag-pb; sort a copy: the slice is the caller's and may share its
+	// backing array with the Children of an entry returned earlier
+	children = append([]DirEntry(nil), children...)
 	sort.Slice(children, func(i, j int) bool {
 		return strings.Compare(children[i].Path, children[j].Path) < 0
 	})
